@@ -654,8 +654,8 @@ int main(int argc, char** argv)
                         for (size_t i : sets[bi]) { add_item(rb.in[0], IN0[i]); name += IN0[i].name + " "; }
                         name += "}";
                         for (size_t i : un) add_item(ru.in[0], IN0[i]);
-                        // outputs / globals: A gets the even items, B the odd ones (+ one shared)
-                        for (size_t i = 0; i < OUT.size(); i++) { if (i % 2 == 0 || i == 1) add_item(ra.out[0], OUT[i]); if (i % 2 == 1) add_item(rb.out[0], OUT[i]); add_item(ru.out[0], OUT[i]); }
+                        // outputs / globals: the items are split between A and B (one shared), multi-record kinds (bip32, xpubs) on both sides
+                        for (size_t i = 0; i < OUT.size(); i++) { const bool in_b = i % 2 == 1 || i == 6; /* bip32_a only in A, bip32_b only in B, item 1 in both */ if (!in_b || i == 1) add_item(ra.out[0], OUT[i]); if (in_b) add_item(rb.out[0], OUT[i]); add_item(ru.out[0], OUT[i]); }
                         for (size_t i = 0; i < GL.size(); i++) { if (i % 2 == 0) add_item(ra.g, GL[i]); if (i % 2 == 1 || i == 0) add_item(rb.g, GL[i]); add_item(ru.g, GL[i]); }
                         auto pa = decode(ser_raw(ra)), pb = decode(ser_raw(rb));
                         C.combines++;
